@@ -344,7 +344,13 @@ func (g *ctlGenState) unitID() string {
 			return g.unk[r.Intn(len(g.unk))]
 		}
 	case 6:
-		return []string{"..", ".", "../..", "a/b", "/", "/etc", "../data", "x/../..", "nosuch/", "./nosuch"}[r.Intn(10)]
+		ids := []string{"..", ".", "../..", "a/b", "/", "/etc", "../data", "x/../..", "nosuch/", "./nosuch",
+			strings.Repeat("L", 300), "nul\x00byte", "x/" + strings.Repeat("y", 260)}
+		if len(g.mem) > 0 {
+			// a path through a plain file of an existing unit (the stat fails with "not a directory")
+			ids = append(ids, g.mem[0]+"/status/z", g.mem[0]+"/stdout/..")
+		}
+		return ids[r.Intn(len(ids))]
 	case 7:
 		if len(g.disk) > 0 {
 			d := g.disk[r.Intn(len(g.disk))]
@@ -434,7 +440,7 @@ func (g *ctlGenState) jsonLine() string {
 func (g *ctlGenState) plainLine() string {
 	r := g.v.rng
 	id := g.unitID()
-	if strings.ContainsAny(id, " \n") {
+	if strings.ContainsAny(id, " \n\x00") {
 		id = "x"
 	}
 	switch r.Intn(30) {
